@@ -492,6 +492,9 @@ impl<'a> GExec<'a> {
             Bytes::from_slice(&env, &pl),
         )
             .into_val(&env);
+        if auth == AuthVar::Everyone && contract_sender.is_none() {
+            self.sim.permissive_next = true;
+        }
         let who: Option<usize> = match auth {
             AuthVar::Right | AuthVar::Everyone | AuthVar::RightOtherArgs | AuthVar::RootOnly => Some(s_i),
             AuthVar::Owner | AuthVar::OtherRole => Some(self.gws[g].m.owner),
@@ -604,6 +607,9 @@ impl<'a> GExec<'a> {
         )
             .into_val(&env);
         let xfer_args: SVec<Val> = (u_addr.clone(), self.gas.clone(), gas as i128).into_val(&env);
+        if auth == AuthVar::Everyone {
+            self.sim.permissive_next = true;
+        }
         let who: Option<usize> = match auth {
             AuthVar::Right | AuthVar::Everyone | AuthVar::RootOnly | AuthVar::RightOtherArgs => Some(u_i),
             AuthVar::Owner | AuthVar::OtherRole => Some(self.gws[g].m.owner),
@@ -627,7 +633,7 @@ impl<'a> GExec<'a> {
                 }
             }
             entries.push(AuthEntry { who: self.principals[w].clone(), root });
-            auth_ok = w == u_i && matches!(auth, AuthVar::Right);
+            auth_ok = w == u_i && matches!(auth, AuthVar::Right | AuthVar::Everyone);
         }
         if auth.is_fault() {
             ctx.count(&format!("F7.example_send.{}", auth.name()));
